@@ -15,6 +15,8 @@ DUR = '''TLA+ spec Durable.tla (replay engine across invocations: every handler'
 EXE = '''TLA+ spec Executor.tla (map/parallel branch machine: submission, worker pool bound, done-callback split into status write / policy decision / one-status-per-step suspend scan, timer resubmission, cancellation, result construction, orphan marking; completion policy and reason classifier transcribed) model-checked exhaustively with TLC over a sweep of branch scripts x max_concurrency x completion configs; real SDK programs with map/parallel (nested, early completion, failures, waits/retries/callbacks inside branches) executed over many invocations against ModelBackend under a deterministic scheduler with function durations, API latency and crashes; direct oracles on the delivered BatchResult, the backend's update stream and the observed concurrency'''
 
 CHECKS = {
+    "C15": dict(technique="TLA+ transcription Codec.tla of the default serializer's dispatch (is_primitive fast path vs tagged envelope, per-node wrapping, _unwrap rule, JSON's treatment of tuples and dict keys, BatchResult/BatchItem/ErrorObject dict forms) over an abstract value grammar; TLC enumerates every value shape up to depth 2-3 (one state per value) and checks RoundTrip / LookAlikeSafe / NoSilentAlteration; every enumerated shape is concretised from boundary leaf pools and run through the real ExtendedTypeSerDes and serialize()/deserialize() (table generation), comparing path, wire token tree, decoded shape and typed-exact equality; seeded random deeper values on top", text="The structural half of the property (dispatch, wrapping, look-alike unambiguity, key handling) is decided exhaustively by TLC on the transcription and bound to the code shape by shape; leaf-level fidelity (floats, Decimal text, isoformat, surrogates) is only sampled through pools and random values - the evidence says which is which.", design_ref="DESIGN.md 3.6, 5 (C15)", note="Trusted base: TLC; the transcription is bound to the code by comparing the model's predicted path / wire tree / decoded shape with the real serializer for every enumerated shape. Leaf bit patterns are sampled, not exhaustive."),
+    "C20": dict(technique="TLA+ transcription Wire.tla of every to_dict / from_dict / to_json_dict / from_json_dict and create_* factory, field by field including truthiness tests, over abstract leaf domains (absent / empty / values; every enum member; timestamp classes); TLC enumerates all presence vectors (one state per abstract instance) and checks Lossless and UpdateCarriesOptions; every enumerated instance is concretised from leaf pools and run through the real codecs and an exact reference encoder (table generation) with an exact integer-microsecond timestamp oracle; seeded random instances on top", text="Field presence / emptiness / enum structure is decided exhaustively by TLC on the transcription and bound to the code instance by instance (wire form token by token, lost-leaf set); concrete leaf values incl. float arithmetic of timestamps are sampled.", design_ref="DESIGN.md 3.7, 5 (C20)", note="Trusted base: TLC; the transcription is checked against the real code for every enumerated instance; enum members, factory names and dataclass fields are compared with the code at run time."),
     "C16": dict(technique=DUR + "; map/parallel parts by campaigns of the real executor with direct oracles", text="TLC model checking of large child contexts (summary + ReplayChildren, body re-traversed on replay, no re-execution, large final result / error recorded first) + real executions with sizes limit-1/limit/limit+1, nested large contexts, summary generators, oversized map/parallel results and items, oversized final result and error, replay and crash after the summary: recorded payload <= limit, rebuilt value typed-equal, no new records, no function re-entry. Two genuine defects are recorded as known findings.", design_ref="DESIGN.md 3.4, 5 (C16)"),
     "C17": dict(technique=DUR + "; the replay-aware logger (first-page replay status, track_replay after returned operations, visited set) is part of Durable.tla with LOG instructions and the LoggerExact monitor", text="Exhaustive TLC model checking of programs with log calls between operations under every suspension/crash prefix and the first-page split + conformance: per invocation a log call is emitted iff no operation completed before the invocation began lies ahead of it; records carry the execution ARN. Four genuine deviations are recorded as known findings (named causes in the spec).", design_ref="DESIGN.md 3.4, 5 (C17)"),
     "C08": dict(technique="operation ids recomputed independently (blake2b of '<parent>-<n>' along the structural path encoded in operation names) and checked on every update of every invocation under schedules permuting branch start/completion order, in-process resubmission and re-invocation; structural ids are paths in Durable.tla/Executor.tla; gap-free per-context counters by OrderedLock.tla (C19)", text="Conformance campaign over nested sequential and map/parallel programs (ids, parent links, uniqueness, stability across invocations) with the TLA+ models using structural paths as identities; blake2b collision-freeness assumed.", design_ref="DESIGN.md 5 (C08)"),
